@@ -3,6 +3,7 @@ import Driver.C18
 import Driver.C09
 import Driver.C08
 import Driver.Registry
+import Driver.Pg
 import Driver.C16
 import Driver.C20
 import Driver.C12
@@ -18,6 +19,7 @@ def main (args : List String) : IO UInt32 := do
       | "c09" => Driver.C09.run ops impl
       | "c08" => Driver.C08.run ops impl
       | "registry" => Driver.Registry.run ops impl
+      | "pg" => Driver.Pg.run ops impl
       | "c16" => Driver.C16.run ops impl
       | "c20" => Driver.C20.run ops impl
       | "c12" => Driver.C12.run ops impl
